@@ -45,7 +45,7 @@ def select_configs(cfgs, rng, n, grids=GRID_MIX_C02):
     return out
 
 
-def contour_cases(ctx, vc, cfgs, seed_shift=0, grids=GRID_MIX_C02, n_quick=60, fit_twice=True):
+def contour_cases(ctx, vc, cfgs, seed_shift=0, grids=GRID_MIX_C02, n_quick=60, fit_twice=True, n_default_quick=1):
     rng = np.random.default_rng(ctx.seed * 7919 + 20 + seed_shift)
     if ctx.quick:
         chosen = select_configs([c for c in cfgs if c["deltas"] != "default"], rng, n_quick, grids)
@@ -62,7 +62,7 @@ def contour_cases(ctx, vc, cfgs, seed_shift=0, grids=GRID_MIX_C02, n_quick=60, f
     # default deltas (0.25 % of the range = 401 cells per axis) and explicit 300-400 cells / axis
     big_default = [c for c in cfgs if c["deltas"] == "default"]
     big_default = [big_default[i] for i in rng.permutation(len(big_default))]
-    for c in big_default[: ctx.pick(1, 5)]:
+    for c in big_default[: ctx.pick(n_default_quick, 5)]:
         cases.append(H.make_contour_case(vc, rng, c, cells2, cells3))
     if not ctx.quick:
         fits = [c for c in cfgs if c["dim"] == 2 and c["grid"] == "fit" and c["deltas"] == "list"
